@@ -62,6 +62,30 @@ def run(tier):
         cmds.append("\t".join(["run", str(len(cmds)), "max=300,t=30", zw.hexq(p)])); meta.append(("prog", p))
     for p in REJECTED:
         cmds.append("\t".join(["run", str(len(cmds)), "max=300,t=30", zw.hexq(p)])); meta.append(("rejected", p))
+    # query texts are bytes: every byte value where a token may start, after a token, inside a string, a raw
+    # string, a comment and a splice (diagnostics quote the offending byte: formatting it must stay in bounds),
+    # and random mutations of seed programs (deletions, insertions, swaps, NUL and high bytes)
+    for b in range(256):
+        pats = (b"%s", b"1 %s add", b"entry %s name", b"\"a%sb\"", b"r\"%s\"", b"# %s", b"\"%%( 1 %s %%)\"", b"1 /* %s */", b"0x%s", b"?%s")
+        for pat in (pats if tier != "quick" else (pats[1], pats[3], pats[6], pats[b % 7 + (0 if b % 7 == 0 else 3)])):
+            bs = pat.replace(b"%s", bytes([b])).replace(b"%%", b"%")
+            cmds.append("\t".join(["run", str(len(cmds)), "max=50,t=30", zw.hexq(bs)])); meta.append(("bytes", bs.decode("utf-8", "backslashreplace")))
+    seeds = [b'(1, 2) ((3, 4) || 5)', b'let A B := 1 2; [A, B] elem', b'"x%( 1 "y%s" %)z" length', b'if ?(1) then "a" else (2)?',
+             b'[|A| A]* !(1 == 2)', b'{|X| X 1 add} apply', b'1 "%s %d %x %o %b" "\\x41\\101\\n\\""', b'r"raw\\" "\\ "cont"',
+             b'(|A| A) /* c */ # d\n // e\n 2', b'[1, "a", [2]] elem (type == T_CONST) 1 add']
+    for sd in seeds:
+        for _ in range(25 if tier == "quick" else 400):
+            m = bytearray(sd)
+            for _ in range(rng.randrange(1, 4)):
+                if not m:
+                    break
+                i = rng.randrange(len(m)); op = rng.randrange(4)
+                if op == 0: del m[i]
+                elif op == 1: m.insert(i, rng.choice(b'()[]{}"%\\|,;:*+?!@#/ \n\x00\xff\x80\xc3\xa9'))
+                elif op == 2 and len(m) > 1:
+                    j = rng.randrange(len(m)); m[i], m[j] = m[j], m[i]
+                else: m[i] = rng.randrange(256)
+            cmds.append("\t".join(["run", str(len(cmds)), "max=20,t=10", zw.hexq(bytes(m))])); meta.append(("mutation", bytes(m).decode("utf-8", "backslashreplace")))
     for p in RUNTIME_FAIL + [c % f for f in FAIL_CORES for c in FAIL_CONTEXTS]:
         cmds.append("\t".join(["run", str(len(cmds)), "max=300,t=30", zw.hexq(p)])); meta.append(("runtime", p))
     for p, f in dwq:
@@ -86,7 +110,7 @@ def run(tier):
     # 2a. sanitizer build: memory errors, UB, leaks; the lifecycle hook aborts at the faulty call
     os.environ.update({k: v for k, v in san_env().items() if k.endswith("SAN_OPTIONS")})
     os.environ["ZWDRV_LEAK_EVERY"] = "40"
-    res = zw.run_driver(os.path.join(san, "bin", "zwdrv"), cmds, wd, tag="san")
+    res = zw.run_driver(os.path.join(san, "bin", "zwdrv"), cmds, wd, tag="san", max_hangs=60)
     os.environ["ZWDRV_LEAK_EVERY"] = "1"
     byid = {r.get("id"): r for r in res}
     leaks = []
@@ -115,7 +139,12 @@ def run(tier):
         if not r1.get("leak"):
             continue
         if r1.get("status") == "parse_error":
-            vd.observe("leak on rejected query: " + r1.get("err", ""), {"program": p, "observed": r1})
+            err = r1.get("err", "")
+            # a syntax error inside a splice is thrown by parse_subquery, i.e. from inside the lexer of the
+            # enclosing parser (a syntax error of the outermost parser is returned by yyparse, and must not leak)
+            if err == "syntax error" and "%(" in p:
+                err = "syntax error inside a splice"
+            vd.observe("leak on rejected query: " + err, {"program": p, "observed": r1})
         elif r1.get("status") == "runtime_error":
             vd.observe("leak on run-time error `%s'" % p, {"program": p, "observed": r1})
         else:
@@ -125,7 +154,7 @@ def run(tier):
     # 2b. hooked plain build with the event trace on; the trace is validated against Lifecycle.tla
     tf = os.path.join(wd, "scon-trace.ndjson")
     env = dict(os.environ); env["DWGREP_VERIF_TRACE"] = tf
-    sub = [c for c, (k, p) in zip(cmds, meta) if k != "rejected"][: 1200 if tier == "quick" else 6000]
+    sub = [c for c, (k, p) in zip(cmds, meta) if k not in ("rejected", "bytes", "mutation")][: 1200 if tier == "quick" else 6000]
     cf = os.path.join(wd, "trace-cmds.txt")
     open(cf, "w").write("\n".join(sub) + "\n")
     start = 0
@@ -192,7 +221,7 @@ def run(tier):
     vd.sample({"program": progs[0]}); vd.sample({"rejected": REJECTED[:5]}); vd.sample({"runtime_failure": RUNTIME_FAIL[:4]})
     return vd.finish(rule="(1) TLC: lifecycle invariants (get only on live state, con only on dead, all dead after destroy at any "
                      "abandonment point) on the engine model for four families; (2) sampled TLC-enumerated programs, rejected "
-                     "queries, run-time failures, DWARF queries and abandonment after 0..4 pulls on the ASan+UBSan+LSan build with "
+                     "queries, every byte value in ten lexical positions, random byte mutations of seed programs, run-time failures, DWARF queries and abandonment after 0..4 pulls on the ASan+UBSan+LSan build with "
                      "the scon shadow-map hook armed; (3) con/des/dtor event traces of the same runs and of tests/tests.sh on the "
                      "hooked build validated by TLC against tla/Lifecycle.tla; non-trivial = distinct programs",
                      level="model_checking")
